@@ -111,6 +111,9 @@ CHECKS['C20'] = dict(stages=_rt('C20', 5000, 120000, 300), assumptions=_rt_assum
     'multi-rank files: node records are matched to ranks by position (rank 0 first, then in the order stats_files_receive() collects them); '
     'equal record counts are demanded per node and its threads, not across nodes'])
 CHECKS['C05']['stages'].append(_rt('C05', 4000, 80000, 100, free=False)[0])
+# C13 in vivo: entries released by fossil collection are strictly below the GVT, and a rollback on an LP that has been
+# fossil-collected restores the exact state (rollback digest, which includes the generator state)
+CHECKS['C13']['stages'].append(_rt('C13', 4000, 80000, 100, free=False)[0])
 CHECKS['C14']['stages'].append(_rt('C14', 2000, 40000, 100, free=False)[0])
 
 
